@@ -3,7 +3,10 @@ package main
 // Seeded sessions for C02 / C03 / C04: pools of templates and binding
 // environments and a history of renders over them.
 
-import "math/rand"
+import (
+	"fmt"
+	"math/rand"
+)
 
 var entries = []string{"Render", "RenderString", "FRender", "ParseAndRender", "ParseAndRenderString", "ParseAndFRender"}
 
@@ -20,6 +23,10 @@ func mutatorTemplates() [][]any {
 		{nText("x"), nObj(eFilter(eLit(vInt(1)), "divided_by", eLit(vInt(0)))), nText("y")},
 		{nObj(eFilter(eFilter(eVar("b"), "sort"), "first")), nObj(eFilter(eVar("b"), "first")), nObj(eFilter(eFilter(eVar("b"), "map", eLit(vStr("k"))), "join"))},
 		{J{"t": "assign", "name": bs("h"), "e": eLit(vInt(1))}, nObj(eVar("h")), nObj(eProp(eVar("g"), "k"))},
+		// a loop that keeps cycle state and may fail part-way (a zero among the elements)
+		{J{"t": "for", "tag": "for", "var": bs("x"), "coll": eVar("q"), "body": []any{J{"t": "cycle", "group": bs("g2"), "vals": []any{bs("p"), bs("q"), bs("r")}},
+			nObj(eFilter(eLit(vInt(60)), "divided_by", eVar("x"))), nText(";")}}},
+		{J{"t": "for", "tag": "tablerow", "var": bs("x"), "coll": eVar("q"), "cols": eLit(vInt(2)), "body": []any{J{"t": "cycle", "group": bs("g1"), "vals": []any{bs("p"), bs("q")}}}}},
 	}
 }
 
@@ -33,7 +40,14 @@ func genSession(r *rand.Rand, i int) J {
 	nenv := 2 + r.Intn(2)
 	envs := []any{}
 	for j := 0; j < nenv; j++ {
-		envs = append(envs, g.env())
+		e := g.env()
+		// q: integers, in every other environment with a zero after a few elements (a render that fails inside a loop)
+		q := []any{vInt(1), vInt(2), vInt(3), vInt(4), vInt(5)}[:3+r.Intn(3)]
+		if j%2 == 1 {
+			q[1+r.Intn(len(q)-1)] = vInt(0)
+		}
+		e = append(e, []any{bs("q"), vArr(q...)})
+		envs = append(envs, e)
 	}
 	templates := []any{}
 	muts := mutatorTemplates()
@@ -95,6 +109,15 @@ func genMapSession(r *rand.Rand, i int) J {
 	c := J{"kind": "session", "templates": templates, "envs": []any{env}, "ops": ops}
 	if n <= 3 {
 		c["anyorder"] = n
+	}
+	if i%3 != 0 {
+		// the same session over a map with integer keys (map[int]any / map[any]any)
+		pairs2 := []any{}
+		for k := 0; k < n; k++ {
+			pairs2 = append(pairs2, []any{bs(fmt.Sprint(10 + k)), vInt(k)})
+		}
+		c["envs"] = []any{[]any{[]any{bs("m"), J{"k": "map", "v": pairs2}}, []any{bs("s"), vStr("v")}}}
+		c["reprs"] = []any{J{"m": pick(r, []string{"intkeys", "anykeys"})}}
 	}
 	return c
 }
